@@ -520,7 +520,17 @@ func runLeakCase(c *Ctx, tc tblCase, seed int64) (vs []rsV, evals int) {
 			continue
 		}
 		what := ""
-		switch k := r.Intn(6); {
+		k := r.Intn(6)
+		if victim == sstables.MetaFileName {
+			// the metadata file is only removed or cut: its record count sizes the index structures of some loaders, and
+			// an inverted or overwritten count of 2^60 records is a question of memory (which C19 does not speak about),
+			// not of descriptors - the watchdog would report the allocation as a violation of this property
+			k %= 3
+			if k == 2 && len(b) <= 1 {
+				k = 1
+			}
+		}
+		switch {
 		case k == 0:
 			_ = os.Remove(vp)
 			what = "removed"
